@@ -36,6 +36,14 @@ Fixpoint split_bytes (n : nat) (s : list char) : option (list char * list char) 
          end
   end.
 
+(* \NNN is the byte with that value (of three octal digits the low eight bits count).  The output of the model is a list of
+   characters; a byte that is not ASCII is no character, and is written here as raw_base + the byte (raw_base is one more than
+   the largest code point, so it cannot be mistaken for a character of the format or of a value). *)
+Definition raw_base : nat := 1114112.
+Definition oct_out (a b c : char) : list char :=
+  let v := (octal_val a * 64 + octal_val b * 8 + octal_val c) mod 256 in
+  if v <? 128 then [v] else [v + raw_base].
+
 (* parse_escape_sequence: three octal digits first, else one escape letter; \c = flush *)
 Definition parse_escape (s : list char) : res (comp * list char) :=
   match s with
@@ -48,7 +56,7 @@ Definition parse_escape (s : list char) : res (comp * list char) :=
         match split_bytes 3 s with
         | Some ([a; b; c], rest) =>
             if is_octal a && is_octal b && is_octal c
-            then Ok (Lit [octal_val a * 64 + octal_val b * 8 + octal_val c], rest)
+            then Ok (Lit (oct_out a b c), rest)
             else fallthrough
         | _ => fallthrough
         end
